@@ -300,10 +300,14 @@ def rule_ret(ctx):
         ok = any(x[0] == "call" and fn.term(x[1]).get("callee_name") == "return1" for x in o)
         lab = jl[0]["args"][0]
         s = lab.get("str")
+        if s is None and lab.get("k") == "const" and "str" in fx.consts.get(lab.get("def"), {}):
+            s = fx.consts[lab["def"]]["str"]
         if s is None and lab.get("k") != "const":
             for x in flow.origins(op_root(lab), ()):
                 if x[0] == "const" and x[1].startswith("str:"):
                     s = x[1][4:]
+                elif x[0] == "const" and x[1].startswith("def:") and "str" in fx.consts.get(x[1][4:], {}):
+                    s = fx.consts[x[1][4:]]["str"]      # a named constant holding the label text
         ok = ok and s == "cleanup"
     ikey = "Exit:mov(return1)+jump(cleanup)"
     if ok:
